@@ -214,7 +214,106 @@ theorem upRootArrive_addEvs (P : Params K) (t : Nat) (s : St K V) (es : List (Ev
       · exact upContinue_addEvs P t _ _ es key f y root rfl
     · rfl
 
-theorem resume_addEvs (P : Params K) (t : Nat) (s : St K V) (es : List (Ev K V)) (k : Kont K V) (hk : isDelK k = false) :
+/-! #### Delete -/
+
+theorem relOpt_addEvs (t : Nat) (s : St K V) (es : List (Ev K V)) (o : Option Nat) :
+    relOpt t (s.addEvs es) o = (relOpt t s o).addEvs es := by
+  cases o <;> rfl
+
+theorem frameUnlock_addEvs (t : Nat) (s : St K V) (es : List (Ev K V)) (fr : Frame) (right : Option Nat) :
+    frameUnlock t (s.addEvs es) fr right = (frameUnlock t s fr right).addEvs es := by
+  unfold frameUnlock
+  rw [relOpt_addEvs, addEvs_rel, relOpt_addEvs]
+
+theorem delFinish_eq (t : Nat) (s : St K V) (small : Bool) (root : Nat) :
+    delFinish t s small root =
+      ((({ s with tree := finishTree s.tree small } : St K V).rel t (.node root)).rel t .tree, .done .ok) := by
+  by_cases hc : (!small) = true ∨ Node.count s.tree.root > 1
+  · simp only [delFinish, finishTree, hc, if_true]
+  · simp only [delFinish, finishTree, hc, if_false]
+    cases collapseRoot s.tree.order s.tree.nextId s.tree.depth s.tree.root <;> rfl
+
+theorem delFinish_addEvs (t : Nat) (s s2 : St K V) (es : List (Ev K V)) (small : Bool) (root : Nat)
+    (h2 : s2 = s.addEvs es) : delFinish t s2 small root = addR (delFinish t s small root) es := by
+  subst h2
+  rw [delFinish_eq, delFinish_eq]
+  rfl
+
+theorem delUnwind_addEvs (P : Params K) (t : Nat) (es : List (Ev K V)) (key : K) (root : Nat) :
+    ∀ (frames : List Frame) (s s2 : St K V) (small : Bool), s2 = s.addEvs es →
+      delUnwind P t s2 key frames small root = addR (delUnwind P t s key frames small root) es := by
+  intro frames
+  induction frames with
+  | nil =>
+    intro s s2 small h2
+    unfold delUnwind
+    exact delFinish_addEvs t s s2 es small root h2
+  | cons fr rest ih =>
+    intro s s2 small h2
+    subst h2
+    unfold delUnwind
+    simp only [addEvs_tree]
+    split
+    · exact ih _ _ false (frameUnlock_addEvs t s es fr none)
+    · split
+      · split
+        · split <;> rfl
+        · split
+          · rfl
+          · split
+            · rfl
+            · rename_i i' small' _
+              exact ih _ _ small' (frameUnlock_addEvs t { s with tree := putInner s.tree i' } es fr none)
+      · rfl
+
+theorem delRightArrive_addEvs (P : Params K) (t : Nat) (s s2 : St K V) (es : List (Ev K V)) (key : K)
+    (rest : List Frame) (fr : Frame) (right root : Nat) (h2 : s2 = s.addEvs es) :
+    delRightArrive P t s2 key rest fr right root = addR (delRightArrive P t s key rest fr right root) es := by
+  subst h2
+  unfold delRightArrive
+  simp only [addEvs_tree]
+  split
+  · split
+    · rfl
+    · split
+      · rfl
+      · rename_i i' small' _
+        exact delUnwind_addEvs P t es key root rest _ _ small'
+          (frameUnlock_addEvs t { s with tree := putInner s.tree i' } es fr (some right))
+  · rfl
+
+theorem delEnter_addEvs (P : Params K) (t : Nat) (s : St K V) (es : List (Ev K V)) (key : K) (frames : List Frame)
+    (n root : Nat) :
+    delEnter P t (s.addEvs es) key frames n root =
+      ((delEnter P t s key frames n root).1.addEvs es, (delEnter P t s key frames n root).2) := by
+  unfold delEnter
+  simp only [addEvs_tree]
+  split
+  · rfl
+  · split
+    · split <;> rfl
+    · split
+      · rfl
+      · split
+        · split <;> rfl
+        · split <;> rfl
+
+theorem delGo_addEvs (P : Params K) (t : Nat) (s s2 : St K V) (es : List (Ev K V)) (key : K) (frames : List Frame)
+    (n root : Nat) (h2 : s2 = s.addEvs es) :
+    delGo P t s2 key frames n root = addR (delGo P t s key frames n root) es := by
+  subst h2
+  unfold delGo
+  rw [delEnter_addEvs]
+  cases h : delEnter P t s key frames n root with
+  | mk s1 r =>
+    obtain ⟨fl, o⟩ := r
+    cases o with
+    | none => rfl
+    | some fs =>
+      obtain ⟨frames', small⟩ := fs
+      exact delUnwind_addEvs P t es key root frames' s1 _ small rfl
+
+theorem resume_addEvs (P : Params K) (t : Nat) (s : St K V) (es : List (Ev K V)) (k : Kont K V) :
     resume P t (s.addEvs es) k = addR (resume P t s k) es := by
   cases k with
   | roTree sc key => rfl
@@ -236,11 +335,17 @@ theorem resume_addEvs (P : Params K) (t : Nat) (s : St K V) (es : List (Ev K V))
     · rfl
   | hop cur next => rfl
   | paused => rfl
-  | delTree key => cases hk
-  | delRoot key r => cases hk
-  | delLeft key frames node index left root => cases hk
-  | delChild key frames node index left child root => cases hk
-  | delRight key rest fr right root => cases hk
+  | delTree key => rfl
+  | delRoot key r => simp only [resume]; exact delGo_addEvs P t _ _ es key [] r r rfl
+  | delLeft key frames node index left root =>
+    simp only [resume, addEvs_acq, addEvs_tree]
+    split
+    · split <;> rfl
+    · rfl
+  | delChild key frames node index left child root =>
+    simp only [resume]; exact delGo_addEvs P t _ _ es key _ child root rfl
+  | delRight key rest fr right root =>
+    simp only [resume]; exact delRightArrive_addEvs P t _ _ es key rest fr right root rfl
 
 /-! ### which operation a continuation belongs to -/
 
@@ -248,6 +353,7 @@ theorem resume_addEvs (P : Params K) (t : Nat) (s : St K V) (es : List (Ev K V))
 inductive KSig (K V : Type) where
   | ro (sc : Bool) (key : K)
   | up (key : K) (f : Option V → V) (y : Option Bool)
+  | del (key : K)
   | other
 
 def kontSig : Kont K V → KSig K V
@@ -259,7 +365,29 @@ def kontSig : Kont K V → KSig K V
   | .upChild key f y _ _ _ => .up key f y
   | .upSib key f y _ _ _ => .up key f y
   | .upCallback key f _ _ => .up key f (some true)
+  | .delTree key => .del key
+  | .delRoot key _ => .del key
+  | .delLeft key _ _ _ _ _ => .del key
+  | .delChild key _ _ _ _ _ _ => .del key
+  | .delRight key _ _ _ _ => .del key
   | _ => .other
+
+/-- continuations of a Delete whose key has already been removed from its leaf -/
+def postK : Kont K V → Bool
+  | .delRight _ _ _ _ _ => true
+  | _ => false
+
+def postP : Park K V → Bool
+  | .want _ k => postK k
+  | _ => false
+
+theorem postLeaf_park (p : Park K V) : postLeaf (.park p) ↔ postP p = true := by
+  cases p with
+  | want l k => cases k <;> simp [postLeaf, postP, postK]
+  | _ => simp [postLeaf, postP]
+
+theorem postK_sig {k : Kont K V} (h : postK k = true) : ∃ key, kontSig k = .del key := by
+  cases k <;> first | exact ⟨_, rfl⟩ | cases h
 
 /-- the callback argument a thread yielded inside its callback remembers -/
 def cbArg : Kont K V → Option (Option V)
@@ -412,12 +540,14 @@ def DoneR (t : Nat) (k : Kont K V) (new : List (Ev K V)) (res : Res K V) : Prop 
       match cbArg k with
       | none => y.isSome = true → (lastCb t new).isSome = true
       | some _ => lastCb t new = none
+  | .del _ => res = .ok
   | .other => True
 
 /-- outcome of a stretch of continuation `k` -/
 def FlowR (t : Nat) (k : Kont K V) (new : List (Ev K V)) : Flow K V → Prop
   | .panic => True
-  | .park p => (kontSig k = .other → False) ∧ cbArg k = none ∧ ParkTr t (kontSig k) new p
+  | .park p => (postK k = true → postP p = true) ∧ (kontSig k = .other → False) ∧ cbArg k = none ∧
+      ParkTr t (kontSig k) new p
   | .done res => DoneR t k new res
 
 theorem FlowR.of_U {t : Nat} {k : Kont K V} {key : K} {f : Option V → V} {y : Option Bool} {new : List (Ev K V)}
@@ -425,15 +555,158 @@ theorem FlowR.of_U {t : Nat} {k : Kont K V} {key : K} {f : Option V → V} {y : 
     FlowR t k new fl := by
   cases fl with
   | panic => trivial
-  | park p => exact ⟨(by rw [hs]; intro h; cases h), hc, (by rw [hs]; exact h)⟩
+  | park p =>
+    refine ⟨?_, (by rw [hs]; intro h; cases h), hc, (by rw [hs]; exact h)⟩
+    intro hp
+    obtain ⟨key', hk'⟩ := postK_sig hp
+    rw [hs] at hk'; cases hk'
   | done res =>
     show DoneR t k new res
     unfold DoneR
     rw [hs, hc]
     exact h
 
-/-- the events a stretch of a continuation of Search/NewScanner/Insert/Update/hop/pause appends -/
-theorem resume_tr (P : Params K) (t : Nat) (s : St K V) (k : Kont K V) (hk : isDelK k = false) :
+/-! #### Delete blocks -/
+
+/-- the log grows by quiet events -/
+def Grow (t : Nat) (s s' : St K V) : Prop := ∃ pre, s'.evs = pre ++ s.evs ∧ pre.all (quietB t) = true
+
+theorem Grow.refl (t : Nat) (s : St K V) : Grow t s s := ⟨[], rfl, rfl⟩
+
+theorem Grow.trans {t : Nat} {s s1 s2 : St K V} (h1 : Grow t s s1) (h2 : Grow t s1 s2) : Grow t s s2 := by
+  obtain ⟨p1, e1, q1⟩ := h1
+  obtain ⟨p2, e2, q2⟩ := h2
+  exact ⟨p2 ++ p1, by rw [e2, e1, List.append_assoc], by rw [List.all_append, q1, q2]; rfl⟩
+
+theorem Grow.rel (t : Nat) (s : St K V) (t' : Nat) (l : Lk) : Grow t s (s.rel t' l) := ⟨[Ev.rel t' l], rfl, rfl⟩
+
+theorem Grow.acq (t : Nat) (s : St K V) (t' : Nat) (l : Lk) : Grow t s (s.acq t' l) := ⟨[Ev.acq t' l], rfl, rfl⟩
+
+theorem relOpt_grow (t : Nat) (s : St K V) (o : Option Nat) : Grow t s (relOpt t s o) := by
+  cases o with
+  | none => exact Grow.refl t s
+  | some r => exact Grow.rel t s t _
+
+theorem frameUnlock_grow (t : Nat) (s : St K V) (fr : Frame) (right : Option Nat) : Grow t s (frameUnlock t s fr right) := by
+  unfold frameUnlock
+  exact ((relOpt_grow t s right).trans (Grow.rel t _ t _)).trans (relOpt_grow t _ fr.left)
+
+/-- outcome of a Delete block; `post`: the key has been removed, the block only unwinds -/
+def FlowD (key : K) (post : Bool) : Flow K V → Prop
+  | .panic => True
+  | .park p => (post = true → postP p = true) ∧ ∃ k', parkKont p = some k' ∧ kontSig k' = .del key
+  | .done res => res = .ok
+
+def TrD (t : Nat) (key : K) (post : Bool) (s : St K V) (r : St K V × Flow K V) : Prop :=
+  Grow t s r.1 ∧ FlowD key post r.2
+
+theorem TrD.of_grow {t : Nat} {key : K} {post : Bool} {s s1 : St K V} {r : St K V × Flow K V}
+    (h1 : Grow t s s1) (h : TrD t key post s1 r) : TrD t key post s r := ⟨h1.trans h.1, h.2⟩
+
+theorem TrD.weaken {t : Nat} {key : K} {s : St K V} {r : St K V × Flow K V}
+    (h : TrD t key true s r) : TrD t key false s r := by
+  refine ⟨h.1, ?_⟩
+  have h2 := h.2
+  revert h2
+  cases r.2 with
+  | panic => intro _; trivial
+  | done res => intro h2; exact h2
+  | park p => intro h2; exact ⟨(fun hp => by cases hp), h2.2⟩
+
+theorem delFinish_tr (t : Nat) (key : K) (s : St K V) (small : Bool) (root : Nat) :
+    TrD t key true s (delFinish t s small root) := by
+  rw [delFinish_eq]
+  exact ⟨⟨[Ev.rel t .tree, Ev.rel t (.node root)], rfl, rfl⟩, rfl⟩
+
+theorem delUnwind_tr (P : Params K) (t : Nat) (key : K) (root : Nat) :
+    ∀ (frames : List Frame) (s : St K V) (small : Bool), TrD t key true s (delUnwind P t s key frames small root) := by
+  intro frames
+  induction frames with
+  | nil => intro s small; unfold delUnwind; exact delFinish_tr t key s small root
+  | cons fr rest ih =>
+    intro s small
+    unfold delUnwind
+    split
+    · exact TrD.of_grow (frameUnlock_grow t s fr none) (ih _ false)
+    · split
+      · split
+        · split
+          · exact ⟨Grow.refl t s, trivial⟩
+          · exact ⟨Grow.refl t s, fun _ => rfl, _, rfl, rfl⟩
+        · split
+          · exact ⟨Grow.refl t s, trivial⟩
+          · split
+            · exact ⟨Grow.refl t s, trivial⟩
+            · rename_i i' small' _
+              exact TrD.of_grow ((show Grow t s { s with tree := putInner s.tree i' } from ⟨[], rfl, rfl⟩).trans
+                (frameUnlock_grow t _ fr none)) (ih _ small')
+      · exact ⟨Grow.refl t s, trivial⟩
+
+theorem delRightArrive_tr (P : Params K) (t : Nat) (s : St K V) (key : K) (rest : List Frame) (fr : Frame)
+    (right root : Nat) : TrD t key true s (delRightArrive P t s key rest fr right root) := by
+  unfold delRightArrive
+  split
+  · split
+    · exact ⟨Grow.refl t s, trivial⟩
+    · split
+      · exact ⟨Grow.refl t s, trivial⟩
+      · rename_i i' small' _
+        exact TrD.of_grow ((show Grow t s { s with tree := putInner s.tree i' } from ⟨[], rfl, rfl⟩).trans
+          (frameUnlock_grow t _ fr (some right)))
+          (delUnwind_tr P t key root rest _ small')
+  · exact ⟨Grow.refl t s, trivial⟩
+
+theorem delEnter_tr (P : Params K) (t : Nat) (s : St K V) (key : K) (frames : List Frame) (n root : Nat) :
+    Grow t s (delEnter P t s key frames n root).1 ∧
+      ((delEnter P t s key frames n root).2.2 = none → FlowD key false (delEnter P t s key frames n root).2.1) := by
+  unfold delEnter
+  split
+  · exact ⟨Grow.refl t s, fun _ => trivial⟩
+  · split
+    · split
+      · exact ⟨Grow.refl t s, fun _ => trivial⟩
+      · exact ⟨Grow.refl t s, fun h => by cases h⟩
+    · split
+      · exact ⟨Grow.refl t s, fun _ => trivial⟩
+      · simp only
+        split
+        · split
+          · exact ⟨Grow.refl t s, fun _ => trivial⟩
+          · exact ⟨Grow.refl t s, fun _ => ⟨(fun h => by cases h), _, rfl, rfl⟩⟩
+        · split
+          · exact ⟨Grow.refl t s, fun _ => trivial⟩
+          · exact ⟨Grow.refl t s, fun _ => ⟨(fun h => by cases h), _, rfl, rfl⟩⟩
+
+theorem delGo_tr (P : Params K) (t : Nat) (s : St K V) (key : K) (frames : List Frame) (n root : Nat) :
+    TrD t key false s (delGo P t s key frames n root) := by
+  have henter := delEnter_tr P t s key frames n root
+  unfold delGo
+  split
+  · rename_i s1 fl heq
+    rw [heq] at henter
+    exact ⟨henter.1, henter.2 rfl⟩
+  · rename_i s1 fl frames' small heq
+    rw [heq] at henter
+    exact TrD.of_grow henter.1 (delUnwind_tr P t key root frames' s1 small).weaken
+
+theorem FlowR.of_D {t : Nat} {k : Kont K V} {key : K} {post : Bool} {new : List (Ev K V)}
+    {fl : Flow K V} (hs : kontSig k = .del key) (hc : cbArg k = none) (hp : postK k = true → post = true)
+    (h : FlowD key post fl) : FlowR t k new fl := by
+  cases fl with
+  | panic => trivial
+  | park p =>
+    obtain ⟨h1, k', h2, h3⟩ := h
+    refine ⟨fun hk => h1 (hp hk), (by rw [hs]; intro h; cases h), hc, k', h2, (by rw [hs]; exact h3), ?_⟩
+    intro arg ha
+    cases k' <;> first | (cases ha; done) | (cases h3; done)
+  | done res =>
+    show DoneR t k new res
+    unfold DoneR
+    rw [hs]
+    exact h
+
+/-- the events a stretch of a continuation appends (every kind, Delete included) -/
+theorem resume_tr (P : Params K) (t : Nat) (s : St K V) (k : Kont K V) :
     ∃ new, (resume P t s k).1.evs = new ++ s.evs ∧ new.all (quietB t) = true ∧ FlowR t k new (resume P t s k).2 := by
   have up : ∀ {s1 : St K V} {r : St K V × Flow K V} {key : K} {f : Option V → V} {y : Option Bool},
       kontSig k = .up key f y → cbArg k = none → TrU t key f y s1 r → ∀ pre, s1.evs = pre ++ s.evs →
@@ -442,10 +715,16 @@ theorem resume_tr (P : Params K) (t : Nat) (s : St K V) (k : Kont K V) (hk : isD
     intro s1 r key f y hs hc htr pre h1 hq
     obtain ⟨new, e, q, fl⟩ := TrU.of_pre pre h1 hq htr
     exact ⟨new, e, q, FlowR.of_U hs hc fl⟩
+  have dl : ∀ {s1 : St K V} {r : St K V × Flow K V} {key : K} {post : Bool},
+      kontSig k = .del key → cbArg k = none → (postK k = true → post = true) → TrD t key post s1 r → Grow t s s1 →
+      ∃ new, r.1.evs = new ++ s.evs ∧ new.all (quietB t) = true ∧ FlowR t k new r.2 := by
+    intro s1 r key post hs hc hp htr hg
+    obtain ⟨⟨new, e, q⟩, fl⟩ := TrD.of_grow hg htr
+    exact ⟨new, e, q, FlowR.of_D hs hc hp fl⟩
   cases k with
   | roTree sc key =>
     refine ⟨[Ev.acq t .tree], rfl, by simp [quietB], ?_⟩
-    refine ⟨(by intro h; cases h), rfl, _, rfl, rfl, by intro a ha; cases ha⟩
+    refine ⟨(by intro h; cases h), (by intro h; cases h), rfl, _, rfl, rfl, by intro a ha; cases ha⟩
   | roNode sc key hold want =>
     simp only [resume]
     obtain ⟨new, e, q, fl⟩ := roArrive_tr P t (s.acq t (.node want)) sc key hold want
@@ -453,7 +732,7 @@ theorem resume_tr (P : Params K) (t : Nat) (s : St K V) (k : Kont K V) (hk : isD
     revert fl
     cases (roArrive P t (s.acq t (.node want)) sc key hold want).2 with
     | panic => intro _; trivial
-    | park p => intro fl; exact ⟨(by intro h; cases h), rfl, ParkTr.mono _ fl⟩
+    | park p => intro fl; exact ⟨(by intro h; cases h), (by intro h; cases h), rfl, ParkTr.mono _ fl⟩
     | done res =>
       intro fl
       show DoneR t _ _ res
@@ -463,7 +742,7 @@ theorem resume_tr (P : Params K) (t : Nat) (s : St K V) (k : Kont K V) (hk : isD
       | false => exact fl rfl
   | upTree key f y =>
     refine ⟨[Ev.acq t .tree], rfl, by simp [quietB], ?_⟩
-    refine ⟨(by intro h; cases h), rfl, _, rfl, rfl, by intro a ha; cases ha⟩
+    refine ⟨(by intro h; cases h), (by intro h; cases h), rfl, _, rfl, rfl, by intro a ha; cases ha⟩
   | upRoot key f y r =>
     simp only [resume]
     exact up rfl rfl (upRootArrive_tr P t _ key f y r) [Ev.acq t (.node r)] rfl (by simp [quietB])
@@ -490,11 +769,26 @@ theorem resume_tr (P : Params K) (t : Nat) (s : St K V) (k : Kont K V) (hk : isD
   | hop cur next =>
     exact ⟨[Ev.rel t (.node cur), Ev.acq t (.node next)], rfl, by simp [quietB], trivial⟩
   | paused => exact ⟨[], rfl, rfl, trivial⟩
-  | delTree key => cases hk
-  | delRoot key r => cases hk
-  | delLeft key frames node index left root => cases hk
-  | delChild key frames node index left child root => cases hk
-  | delRight key rest fr right root => cases hk
+  | delTree key =>
+    refine ⟨[Ev.acq t .tree], rfl, by simp [quietB], ?_⟩
+    refine ⟨(by intro h; cases h), (by intro h; cases h), rfl, _, rfl, rfl, by intro a ha; cases ha⟩
+  | delRoot key r =>
+    simp only [resume]
+    exact dl rfl rfl (by intro h; cases h) (delGo_tr P t _ key [] r r) (Grow.acq t s t _)
+  | delLeft key frames node index left root =>
+    simp only [resume]
+    split
+    · split
+      · exact ⟨[Ev.acq t (.node left)], rfl, by simp [quietB], (by intro h; cases h), (by intro h; cases h), rfl,
+          _, rfl, rfl, by intro a ha; cases ha⟩
+      · exact ⟨[Ev.acq t (.node left)], rfl, by simp [quietB], trivial⟩
+    · exact ⟨[Ev.acq t (.node left)], rfl, by simp [quietB], trivial⟩
+  | delChild key frames node index left child root =>
+    simp only [resume]
+    exact dl rfl rfl (by intro h; cases h) (delGo_tr P t _ key _ child root) (Grow.acq t s t _)
+  | delRight key rest fr right root =>
+    simp only [resume]
+    exact dl rfl rfl (fun _ => rfl) (delRightArrive_tr P t _ key rest fr right root) (Grow.acq t s t _)
 
 /-! ### starting an operation -/
 
@@ -504,13 +798,13 @@ def KontFor : COp K V → Kont K V → Prop
   | .upd key g b, k => kontSig k = .up key g (some b)
   | .get key, k => kontSig k = .ro false key
   | .ns key, k => kontSig k = .ro true key
-  | .del _, _ => True
-  | _, k => kontSig k = .other ∧ isDelK k = false
+  | .del key, k => kontSig k = .del key
+  | _, k => kontSig k = .other
 
 /-- outcome of the first stretch of a client call -/
 def FlowStart (cop : COp K V) : Flow K V → Prop
   | .panic => True
-  | .park p => ∃ k, parkKont p = some k ∧ KontFor cop k ∧ cbArg k = none
+  | .park p => ∃ k, parkKont p = some k ∧ KontFor cop k ∧ cbArg k = none ∧ postP p = false
   | .done _ => opOf cop = none
 
 theorem startOp_tr (t : Nat) (s : St K V) (op : COp K V) :
@@ -520,28 +814,28 @@ theorem startOp_tr (t : Nat) (s : St K V) (op : COp K V) :
     simp only [startOp]
     split
     · exact ⟨[], rfl, rfl, trivial⟩
-    · exact ⟨[], rfl, rfl, _, rfl, rfl, rfl⟩
+    · exact ⟨[], rfl, rfl, _, rfl, rfl, rfl, rfl⟩
   | upd k f y =>
     simp only [startOp]
     split
     · exact ⟨[], rfl, rfl, trivial⟩
-    · exact ⟨[], rfl, rfl, _, rfl, rfl, rfl⟩
+    · exact ⟨[], rfl, rfl, _, rfl, rfl, rfl, rfl⟩
   | del k =>
     simp only [startOp]
     split
     · exact ⟨[], rfl, rfl, trivial⟩
-    · exact ⟨[], rfl, rfl, _, rfl, trivial, rfl⟩
+    · exact ⟨[], rfl, rfl, _, rfl, rfl, rfl, rfl⟩
   | get k =>
     simp only [startOp]
     split
     · exact ⟨[], rfl, rfl, trivial⟩
-    · exact ⟨[], rfl, rfl, _, rfl, rfl, rfl⟩
+    · exact ⟨[], rfl, rfl, _, rfl, rfl, rfl, rfl⟩
   | ns k =>
     simp only [startOp]
     split
     · exact ⟨[], rfl, rfl, trivial⟩
-    · exact ⟨[], rfl, rfl, _, rfl, rfl, rfl⟩
-  | pause => exact ⟨[], rfl, rfl, _, rfl, ⟨rfl, rfl⟩, rfl⟩
+    · exact ⟨[], rfl, rfl, _, rfl, rfl, rfl, rfl⟩
+  | pause => exact ⟨[], rfl, rfl, _, rfl, rfl, rfl, rfl⟩
   | scan =>
     simp only [startOp]
     split
@@ -550,7 +844,7 @@ theorem startOp_tr (t : Nat) (s : St K V) (op : COp K V) :
       · split
         · split
           · exact ⟨[Ev.rel t (.node _)], rfl, rfl, rfl⟩
-          · exact ⟨[], rfl, rfl, _, rfl, ⟨rfl, rfl⟩, rfl⟩
+          · exact ⟨[], rfl, rfl, _, rfl, rfl, rfl, rfl⟩
         · exact ⟨[], rfl, rfl, rfl⟩
     · exact ⟨[], rfl, rfl, rfl⟩
   | pair =>
